@@ -246,6 +246,20 @@ Definition bstep (on : bool) (s : bst) (e : bev) : bst :=
       end
   end.
 
+
+(* does the resolve step of reader i go to the device in state s (cache on)?  (the code fills the
+   cache only after such a read) *)
+Definition will_read_device (s : bst) (i : N) : bool :=
+  match aget i (b_rd s) with
+  | Some (RHold k g) =>
+      match aget g (b_gens s) with
+      | Some r => negb (expired r (b_now s)) && negb (resident s g)
+                  && match cg_get (b_cache s) k (Some g) with Some _ => false | None => true end
+      | None => false
+      end
+  | _ => false
+  end.
+
 Definition binit : bst := mkbst [] [] [] 1 0 [] [] [].
 
 Definition brun (on : bool) (s : bst) (es : list bev) : bst := fold_left (bstep on) es s.
